@@ -107,7 +107,13 @@ func nameModels(g *generated, level string) (models map[int]map[string]*nameMode
 	for _, f := range genA.Files {
 		if i, ok := idx[f.Desc.Path()]; ok && f.Generate {
 			walkA(i, f.Messages)
-			claims[i] = packageClaims(f)
+			variant := false
+			for _, n := range g.names {
+				if g.pkgOf[n] == i && strings.HasSuffix(n, "_protoopaque.pb.go") {
+					variant = true
+				}
+			}
+			claims[i] = packageClaims(f, variant && goTags(level) != "")
 		}
 	}
 	var walkH func(i int, ms []*protogen.Message)
@@ -135,7 +141,7 @@ func nameModels(g *generated, level string) (models map[int]map[string]*nameMode
 // names are that identifier: message and enum types (parents joined with '_'), enum value constants
 // (<parent or enum>_<value>), the <Enum>_name / <Enum>_value maps, Default_<Msg>_<Field>, E_<extension>,
 // oneof interfaces, wrapper types, case types and constants, <Msg>_builder.
-func packageClaims(f *protogen.File) map[string][]string {
+func packageClaims(f *protogen.File, allOpaque bool) map[string][]string {
 	out := map[string][]string{}
 	add := func(id, what string) { out[id] = append(out[id], what) }
 	enum := func(e *protogen.Enum) {
@@ -157,7 +163,7 @@ func packageClaims(f *protogen.File) map[string][]string {
 		}
 		n := m.GoIdent.GoName
 		add(n, "message type "+string(m.Desc.FullName()))
-		if m.APILevel != gofeaturespbOpen {
+		if m.APILevel != gofeaturespbOpen || allOpaque {
 			add(n+"_builder", "builder of "+string(m.Desc.FullName()))
 		}
 		for _, fd := range m.Fields {
@@ -245,8 +251,8 @@ func explain(g *generated, level string, i int, models map[int]map[string]*nameM
 			tn := strings.TrimSuffix(k.Type, "_builder")
 			m := models[i][tn]
 			// the level the message really has (features.(pb.go).api_level of the file or the message, edition
-			// 2024 default); the _protoopaque variant of a file turns its hybrid messages into opaque ones
-			if l := lv[i][tn]; l != "" && !(l == "hybrid" && strings.HasPrefix(k.Level, "opaque(")) {
+			// 2024 default); the _protoopaque variant of a hybrid file makes every message of the file opaque
+			if l := lv[i][tn]; l != "" && !strings.HasPrefix(k.Level, "opaque(") {
 				k.Level = l
 			}
 			if m != nil {
